@@ -160,6 +160,17 @@ theorem keeps_arrayOp (F : Facts15) (fuel src : Nat) (member : Option String) (k
     refine Keeps.bind (Keeps.updCls _ _ _ (fun _ => ⟨rfl, rfl, rfl⟩)) (fun _ => ?_)
     exact Keeps.pureT _ _
 
+theorem keeps_arraySA (F : Facts15) (fuel src : Nat) (sa kw : Kw) (ca : Option (List (String × Kw))) (caa : Option Kw) :
+    Keeps Tr (arraySA F fuel src sa kw ca caa) TrQ := by
+  unfold arraySA
+  refine Keeps.bind (Keeps.getCls Tr _) (fun sc => ?_)
+  split
+  · refine Keeps.bind (keeps_customizeAny _ _ _ _).anyPre (fun m' => ?_)
+    refine Keeps.bind (keeps_custComplex _ _ _ _ _ _).anyPre (fun r1 => ?_)
+    refine Keeps.bind (keeps_setSerializer _ _ _ _ _).anyPre (fun _ => ?_)
+    exact (keeps_custComplex _ _ _ _ _ _).anyPre
+  · exact Keeps.fail _ _ _
+
 structure KeepsMand (F : Facts15) (fuel : Nat) : Prop where
   mandatory : ∀ src, Keeps Tr (mandatory F fuel src) TrQ
   mandMember : ∀ b target, Keeps Tr (mandMember F fuel b target) TrQ
@@ -297,12 +308,16 @@ theorem keeps_evolve (impl : Nat → M Unit) (hf : ∀ v, Keeps Tr (impl v) TrQ)
 theorem keeps_opProg (F : Facts15) (hF : F.varRule = .ownPerClass) (hX : F.varRuleX = .ownPerClass) (fuel : Nat) (op : Op) :
     Keeps Tr (opProg F fuel op) TrQ := by
   cases op with
-  | customize src kw ca caa prot =>
+  | customize src kw ca caa prot nx sa =>
     simp only [opProg]
     refine Keeps.bind (Keeps.getCls Tr _) (fun sc => ?_)
     refine Keeps.bind (keeps_protMerge F prot kw _ (fun _ _ _ p => p)).anyPre (fun kwE => ?_)
     split
-    · exact (Keeps.map _ (keeps_custComplex _ _ _ _ _ _)).anyPre
+    · split
+      · split
+        · exact (Keeps.map _ (keeps_arraySA _ _ _ _ _ _ _)).anyPre
+        · exact (Keeps.map _ (keeps_custComplex _ _ _ _ _ _)).anyPre
+      · exact (Keeps.map _ (keeps_custComplex _ _ _ _ _ _)).anyPre
     · exact (Keeps.map _ (keeps_customizeAny _ _ _ _)).anyPre
   | array src member kw flat iter => exact Keeps.map _ (keeps_arrayOp _ _ _ _ _ _ _)
   | mandatory src => exact Keeps.map _ ((keepsMand F fuel).mandatory src)
